@@ -56,10 +56,10 @@ def cut(rng, data, maxcuts):
 
 
 def canonical_msg(cmd, pfx, args):
-    """class predicate of finding C18-irc-roundtrip: messages the partial round-trip theorem covers"""
+    """class predicate of finding C18-irc-roundtrip: exactly the hypothesis `canonical` of theorem C18_roundtrip_partial"""
     def tok(s):
         return s != '' and not s.startswith(':') and not any(ord(c) in WSSET for c in s)
-    if not tok(cmd) or (pfx is not None and (pfx == '' or any(ord(c) in WSSET for c in pfx))):
+    if not tok(cmd):
         return False
     if not all(tok(a) for a in args[:-1]):
         return False
